@@ -111,7 +111,7 @@ pub fn dir(data: &[u8]) -> Option<crate::c07::Case> {
     let mut files = Vec::new();
     while !u.is_empty() && files.len() < 14 {
         let b: u8 = u.arbitrary().ok()?;
-        files.push((b % 6, (b >> 4) % 3));
+        files.push((b % 9, (b >> 4) % 3));
     }
     let n = files.len();
     Some(crate::c07::Case { files, subdirs: subdirs % 3, capacity: (capsel as usize % 16 * (n + 2)) >> 4, route: route % 6, own_existing: if own & 1 == 1 && n > 0 { Some((own >> 1) % n as u8) } else { None } })
@@ -174,6 +174,8 @@ pub fn conc(data: &[u8], stacked_ops: bool) -> Option<crate::sched::ConcCase> {
         preload_reader: if kind >= 2 { (0..3).filter(|k| b1 & (16 << k) != 0).collect() } else { vec![] },
         dirs_missing: b1 & 0x80 != 0,
         checker: false,
+        no_hard_links: false,
+        stale_debris: b2 & 0x40 != 0,
     };
     let nprog = 2 + (b2 % 2) as usize;
     let mut kinds = vec![PKind::Set, PKind::Put, PKind::Get, PKind::Touch, PKind::Ensure, PKind::Maintain, PKind::Get, PKind::RoGet];
